@@ -261,16 +261,32 @@ pub fn main(args: &[String]) -> i32 {
         roundtrip_generic::<[u32; 4]>("array4", &[rng.next() as u32, 0, u32::MAX, i as u32], &mut fails, &mut count);
         macro_rules! elems {
             ($B:ty, $name:expr) => {{
-                let boundary: [$B; 4] = [<$B>::ZERO, <$B>::ONE, -<$B>::ONE, <$B>::from(rng.next() as u32) * <$B>::from(rng.next() as u32)];
-                let e = boundary[i as usize % 4];
+                // values reached through arithmetic as well as through constructors: the internal representation of a residue is
+                // not unique in every field (a zero obtained by cancellation, a one obtained from it)
+                let x = <$B>::from(rng.next() as u32) * <$B>::from(rng.next() as u32);
+                let z = x + (-x);
+                let boundary: [$B; 9] = [<$B>::ZERO, <$B>::ONE, -<$B>::ONE, x, z, (-<$B>::ONE) + <$B>::ONE, z.double(), <$B>::ONE + z, <$B>::ZERO - z];
+                let e = boundary[i as usize % 9];
                 roundtrip_generic::<$B>($name, &e, &mut fails, &mut count);
-                roundtrip_generic::<QuadExtension<$B>>(&format!("quad_{}", $name), &QuadExtension::<$B>::new(e, boundary[(i as usize + 1) % 4]), &mut fails, &mut count);
+                roundtrip_generic::<QuadExtension<$B>>(&format!("quad_{}", $name), &QuadExtension::<$B>::new(e, boundary[(i as usize + 1) % 9]), &mut fails, &mut count);
+                roundtrip_generic::<CubeExtension<$B>>(&format!("cube_{}", $name), &CubeExtension::<$B>::new(boundary[(i as usize + 4) % 9], e, boundary[(i as usize + 5) % 9]), &mut fails, &mut count);
                 roundtrip_generic::<Vec<$B>>(&format!("vec_{}", $name), &boundary.to_vec(), &mut fails, &mut count);
             }};
         }
         elems!(f62::BaseElement, "f62");
         elems!(f64::BaseElement, "f64");
-        elems!(f128::BaseElement, "f128");
+        {
+            // f128 has no cubic extension
+            type B = f128::BaseElement;
+            use winter_math::FieldElement;
+            let x = B::from(rng.next() as u32) * B::from(rng.next() as u32);
+            let z = x + (-x);
+            let boundary: [B; 6] = [B::ZERO, B::ONE, -B::ONE, x, z, B::ONE + z];
+            let e = boundary[i as usize % 6];
+            roundtrip_generic::<B>("f128", &e, &mut fails, &mut count);
+            roundtrip_generic::<QuadExtension<B>>("quad_f128", &QuadExtension::<B>::new(e, boundary[(i as usize + 1) % 6]), &mut fails, &mut count);
+            roundtrip_generic::<Vec<B>>("vec_f128", &boundary.to_vec(), &mut fails, &mut count);
+        }
         let c3 = CubeExtension::<f64::BaseElement>::new(f64::BaseElement::from(i as u32), -f64::BaseElement::ONE, f64::BaseElement::from(rng.next() as u32));
         roundtrip_generic::<CubeExtension<f64::BaseElement>>("cube_f64", &c3, &mut fails, &mut count);
         roundtrip_generic::<<Blake3_256<f64::BaseElement> as Hasher>::Digest>("digest32", &Blake3_256::<f64::BaseElement>::hash(&bytes), &mut fails, &mut count);
